@@ -125,7 +125,7 @@ var (
 	respondOutcomes = []wStr{{"200 valid", 60}, {"200 malformed", 12}, {"400 absent", 14}, {"500 absent", 14}}
 
 	// genesis parameter tables (drawn once per history)
-	genMaxTimeout = []int64{4, 100}
+	genMaxTimeout = []int64{1, 4, 100}
 	genMult       = []int64{1, 200}
 	genMinDep     = []string{"-", "1", "1000", "6000"}
 	genTax        = []string{"0", "1", "1000000000000000", "100000000000000000", "500000000000000000", "999999999999999999"}
@@ -666,6 +666,11 @@ func (g *gen) opDefine(adv bool) (*draft, bool) {
 		if !g.v.defined(n) {
 			free = append(free, n)
 		}
+	}
+	// the name reserved by a module can be defined like any other (only binding it is refused): with it defined, a
+	// bind of the reserved service is stopped by the reservation alone
+	if g.hp.modsvc && !g.v.defined(reservedSvc) {
+		free = append(free, reservedSvc)
 	}
 	author := g.oneOf(append(append([][]byte{}, ownerAddrs...), consumerAddrs...))
 	d := newDraft("define", "author", hx(author), "schema", "ok")
